@@ -87,6 +87,10 @@ def sources(tier, seed, ctx):
         ars = [0] if t in gen.NULLARY else [1] if t in gen.UNARY else [2] if t in gen.BINARY else [2, 3]
         for a in ars:
             srcs.append({'k': 'cnftemplate', 't': t, 'n': max(a, 1) if t in gen.NULLARY else a})
+            # ... and as an INTERNAL gate below an asserted negation / buffer: with the gate itself asserted half of
+            # its template is implied by the unit clause and a dropped clause cannot be seen
+            for down in ('NOT', 'IFF'):
+                srcs.append({'k': 'cnftemplate', 't': t, 'n': max(a, 1) if t in gen.NULLARY else a, 'down': down})
     for code in itertools.product('01', repeat=4):
         srcs.append({'k': 'synthcode', 'code': ''.join(code)})
     return srcs
@@ -298,8 +302,10 @@ def record(src):
             from . import c05
         except Exception:
             return []
-        return c05.record({'k': 'cnf', 'net': [src['n'], [[src['t'], list(range(1, src['n'] + 1)) if src['t'] not in gen.NULLARY else []]]],
-                           'outs': [src['n'] + 1], 'sel': None, 'variant': 'plain', 'vs': 0})
+        gs = [[src['t'], list(range(1, src['n'] + 1)) if src['t'] not in gen.NULLARY else []]]
+        if src.get('down'):
+            gs.append([src['down'], [src['n'] + 1]])
+        return c05.record({'k': 'cnf', 'net': [src['n'], gs], 'outs': [src['n'] + len(gs)], 'sel': None, 'variant': 'plain', 'vs': 0})
     return _record_rest(src)
 
 
